@@ -193,8 +193,18 @@ func (e *containerEngine) exec(c *Case, tape *Tape) *RunOut {
 		}
 	}
 	e.reach(h, a, out)
+	// schedule trace: one entry per context switch (task, site it resumes at, steps it then ran)
+	last, runLen := int32(-1), 0
 	for _, te := range h.sim.Trace() {
-		out.Trace = append(out.Trace, fmt.Sprintf("t%d @ %s", te.Task, siteName(int(te.Site))))
+		if te.Task != last {
+			if last >= 0 {
+				out.Trace[len(out.Trace)-1] += fmt.Sprintf(" (+%d steps)", runLen)
+			}
+			out.Trace = append(out.Trace, fmt.Sprintf("t%d @ %s", te.Task, siteName(int(te.Site))))
+			last, runLen = te.Task, 0
+		} else {
+			runLen++
+		}
 	}
 	out.Digest = h.digest()
 	for _, t := range h.sim.Tasks() {
